@@ -1891,6 +1891,13 @@ package exec
 //@   noalloc
 //@   ensures err == nil
 
+//@ extern strings.Builder.Grow(b, n) ()
+//@   uses strbuilder
+//@   requires b != nil && n >= 0
+//@   modifies b
+//@   noalloc
+//@   ensures sbstr(deref(b)) == old(sbstr(deref(b)))
+
 //@ extern strings.Builder.Len(b) (r)
 //@   pure
 //@   requires b != nil
@@ -2370,8 +2377,9 @@ package exec
 //@   property C19 C15
 //@   uses reflectspec nodeset
 //@   requires (isVSet(result) ==> nodes(vset(result))) && (forall k Int :: 0 <= k && k < len(settings) ==> settings[k] != nil)
+//@   ensures err == nil ==> value != nil && (rtKind(rtBase(dynType(value))) == 25 || rtKind(rtBase(dynType(value))) == 23)      @only-structs-and-slices-are-filled
 //@   loop 0
-//@     invariant rvValid(val) && typ != nil && rvType(val) == typ && !rvRO(val)
+//@     invariant rvValid(val) && typ != nil && rvType(val) == typ && !rvRO(val) && value != nil && rtBase(typ) == rtBase(dynType(value))
 //@     decreases rtDepth(typ)
 
 //@ func Unmarshal(result, value, settings) (err)
@@ -2384,10 +2392,16 @@ package exec
 //@   trusted
 //@   uses reflectspec
 //@   requires result != nil
-//@   ensures ok ==> rvValid(r) && !rvRO(r)
+//@   ensures ok ==> rvValid(r) && !rvRO(r) && rtKind(rvType(r)) != 18 && rtKind(rvType(r)) != 20 && rtKind(rvType(r)) != 22
+//@   ensures !ok ==> kind != 24 && !(1 <= kind && kind <= 14)
 
 //@ func setField(name, field, val, checkSlice) (err)
 //@   property C19 C15
-//@   trusted
 //@   uses reflectspec
-//@   requires rvValid(field) && rvValid(val) && !rvRO(val)
+//@   requires rvValid(field) && rvValid(val) && !rvRO(val) && rtKind(rvType(val)) != 18 && rtKind(rvType(val)) != 20
+//@   loop 0
+//@     invariant typ != nil && elemKind == rtKind(typ) && dereferences >= 0 && assignableType != nil
+//@     decreases rtDepth(typ)
+//@   loop 1
+//@     invariant rvValid(ptrVal) && !rvRO(ptrVal) && rtKind(rvType(ptrVal)) != 18 && rtKind(rvType(ptrVal)) != 20 && dereferences >= 0 && assignableType != nil
+//@     decreases dereferences
